@@ -84,8 +84,9 @@ CHECKS = {
              "parameter settings (and refutes the pinned tree's conditional recomputation as a self-test); on real runs over "
              "structures x options x five parameter files TLC checks pKa = model + desolvation + listed determinants for every "
              "group of every conformation and the average, and that table rows, stars-free values and summary of the .pka "
-             "file render exactly those numbers.",
-        design="5/C02"),
+             "file render exactly those numbers. Hosts CovalentCoupling.tla (coupling rule behind coupling_effects: model "
+             "checking, generated molecules through the real code, real conformations trace-validated; notes only).",
+        design="5/C02, 11.7"),
     "C04": dict(
         engine="Geometry",
         technique='TLA+ lattice-motion spec (24 rotations, translations; instantiates CellList) model-checked by TLC; TLC-generated motions applied exactly to real structures; run pairs trace-validated by TLC (SameHeavy, SameBonds, SameAll, HydEquivariant)',
@@ -114,8 +115,8 @@ CHECKS = {
     "C08": dict(
         engine="Conformations",
         technique='TLA+ conformation spec (names/order, declared completion vs reference-atom top-up, mean over containing) model-checked by TLC; TLC-generated multi-conformation inputs concretised and run; run records trace-validated by TLC (Trace_Conf)',
-        text="TLC checks on all inputs of <= 4 atoms over 2 models x alt-locs x positions (incl. insertion-coded twins and alt-loc mutants) that the code-shaped top-up is a correct completion and never merges residue types (two self-tests must be refuted); emitted inputs, the repository's multi-conformation files and constructed alt-loc / MODEL / mutant cases are run and TLC checks names and order, completion, AVR = mean over the containing conformations for pKa, desolvation and every determinant, and that every reported group is in the average once.",
-        design="5/C08"),
+        text="TLC checks on all inputs of <= 4 atoms over 2 models x alt-locs x positions (incl. insertion-coded twins and alt-loc mutants) that the code-shaped top-up is a correct completion and never merges residue types (two self-tests must be refuted); emitted inputs, the repository's multi-conformation files and constructed alt-loc / MODEL / mutant cases are run and TLC checks names and order, completion, AVR = mean over the containing conformations for pKa, desolvation and every determinant, and that every reported group is in the average once, and that conformations of one model holding the same atoms at a residue position report the same groups there. The stage traces of all these runs are validated against Pipeline.tla.",
+        design="5/C08, 11.7"),
     "C12": dict(
         engine="Truncation",
         technique='TLA+ truncation spec (templates x removed-atom subsets) model-checked by TLC; TLC-generated subsets replayed as deletions in real five-residue windows; truncated-run records trace-validated by TLC (DeclCensus)',
@@ -152,8 +153,10 @@ CHECKS = {
              "multi-conformation, one coupled) x 4 option settings x {single, main}; a seeded selection is executed, each in a "
              "fresh interpreter with varied PYTHONHASHSEED, Group.__hash__ permutation, allocation pattern, working directory and "
              "path/stream input, and TLC checks that full-precision digests of all results and the .pka text are equal within each "
-             "history and to the reference run of the same key.",
-        design="5/C03"),
+             "history and to the reference run of the same key; every (content, option) key is also repeated systematically. One "
+             "in-process history is recorded stage by stage and each call's event sequence must be a behaviour of the stage machine "
+             "Pipeline.tla (folded transition function, binding self-test with corrupted traces) and identical for repeated calls.",
+        design="5/C03, 11.7"),
 }
 
 NOT_APPLICABLE = {}
